@@ -61,7 +61,8 @@ namespace sim
 			std::lock_guard<std::mutex> l(m_timer_queue_mutex);
 			if (!m_timer_queue.empty()) {
 				asio::high_resolution_timer* next_timer = *m_timer_queue.begin();
-				chrono::high_resolution_clock::fast_forward(next_timer->expiry() - now);
+				if (next_timer->expiry() > now)
+					chrono::high_resolution_clock::fast_forward(next_timer->expiry() - now);
 
 				now = chrono::high_resolution_clock::now();
 
